@@ -24,7 +24,7 @@ Record cent := mkCent {
   ce_size : N;                  (* size of the value *)
   ce_init : option (list N);    (* content at the start of a case (None: not observable) *)
   ce_enc : bool;                (* requires an encrypted link *)
-  ce_readable : bool;           (* a notification can read the value *)
+  ce_readable : bool;           (* a notification reads the value of THIS characteristic (see attributable) and can read it *)
   ce_const : bool;              (* the value never changes *)
   ce_first : nat }.             (* first characteristic with the same uuid: the target of notify< UUID >() *)
 
@@ -50,6 +50,13 @@ Fixpoint first_uuid (l : list (service_decl * char_decl)) (u : uuid) (i : nat) :
   | x :: t => if uuid_eqb (c_uuid (snd x)) u then i else first_uuid t u (S i)
   end.
 
+(* every service has a characteristic: then (and, in general, only then: known finding
+   C10-empty-service-shifts-notification-attribute) the attribute l2cap_output reads for a queued request is the
+   value attribute of the requested characteristic (C10_right_characteristic_partial), i.e. a transmitted PDU can
+   be attributed to its request by its handle. The liveness bookkeeping (must-requests) relies on that *)
+Definition attributable (c : cfg) : bool :=
+  forallb (fun s => negb (Nat.eqb (length (s_chars s)) 0)) (services c).
+
 Definition cent_of (c : cfg) (tab : list (N * attr)) (i : N) (s : service_decl) (ch : char_decl) (g : nat) (cci : N) : cent :=
   mkCent (handle_by_index c i)
          (if has_cccd ch then cccd_handle_of c tab cci else 0)
@@ -60,7 +67,8 @@ Definition cent_of (c : cfg) (tab : list (N * attr)) (i : N) (s : service_decl) 
           | VString b => Some b
           end)
          (char_requires_encryption c s ch)
-         (match c_value ch with
+         (attributable c &&
+          match c_value ch with
           | VBind _ _ | VFixed _ _ => negb (c_no_read ch)
           | VString _ => true
           | VHandler _ hrd _ blob => hrd
@@ -257,11 +265,27 @@ Definition adv_sent (m : obs) (cid g : nat) (kd : kind) : obs :=
   let pe := nth g (o_pend k) (0, 0) in
   let mu := nth g (o_must k) (false, false) in
   let was_must := pick kd mu in
+  (* the PDU is not the one of a must-request of this characteristic: it may be the PDU of another request
+     under this handle (which attribute a PDU carries is C10's business), so it cannot be attributed: none of the
+     must-requests of this connection is insisted on any longer (they join the slack) *)
+  let unattributed := negb was_must in
+  let mu_all := if unattributed then map (fun _ => (false, false)) (o_must k) else o_must k in
+  let slack := if unattributed then o_slack k + count_must (o_must k) else o_slack k in
   set_oc m cid (mkOC (o_mtu k) (o_enc k) (o_cccd k) (o_since k) (o_prep k)
                      (upd (o_pend k) g (put_k kd pe 2))
-                     (upd (o_must k) g (put_k kd mu false))
+                     (upd mu_all g (put_k kd (nth g mu_all (false, false)) false))
                      (match kd with KInd => true | KNotif => o_out k end)
-                     (if was_must then o_slack k else o_slack k - 1)).
+                     (if was_must then slack else slack - 1)).
+
+(* a notification / indication whose handle is not the value handle of any characteristic was transmitted:
+   a queued request was consumed WITH a PDU (so it is not lost in the sense of C11; that the PDU carries the
+   wrong attribute is judged by C10). It cannot be attributed to a request *)
+Definition adv_sent_unknown (m : obs) (cid : nat) (kd : kind) : obs :=
+  let k := oc_at m cid in
+  set_oc m cid (mkOC (o_mtu k) (o_enc k) (o_cccd k) (o_since k) (o_prep k) (o_pend k)
+                     (map (fun _ => (false, false)) (o_must k))
+                     (match kd with KInd => true | KNotif => o_out k end)
+                     (o_slack k + count_must (o_must k) - 1)).
 
 Definition adv_out (c : cfg) (m : obs) (cid : nat) (n : N) (pdu : list N) : obs :=
   let k := oc_at m cid in
@@ -274,7 +298,7 @@ Definition adv_out (c : cfg) (m : obs) (cid : nat) (n : N) (pdu : list N) : obs 
   | opc :: lo :: hi :: _ =>
       match by_value_handle (ob_tab m) (lo + 256 * hi) with
       | Some g => if opc =? 27 then adv_sent m cid g KNotif else if opc =? 29 then adv_sent m cid g KInd else m
-      | None => m
+      | None => if opc =? 27 then adv_sent_unknown m cid KNotif else if opc =? 29 then adv_sent_unknown m cid KInd else m
       end
   | _ => m
   end.
